@@ -376,10 +376,22 @@ func (c01) Eval(c *Chooser, env *Env) *Outcome {
 		mustFatal, mustIdx = "", -1
 		desc = append(desc, "two LintFiles calls on one Linter")
 	}
+	if !ro.ReuseLinter && c.Weighted("fault.stdoutfails", 1, 10) {
+		// the report cannot be written (a closed pipe, a full disk) from some byte on: still no crash,
+		// no hang, and one of the documented exit statuses
+		w.StdoutFailAt = 1 + c.Int("fault.stdoutfailat", 400)
+		desc = append(desc, fmt.Sprintf("stdout-fails-after-%d-bytes", w.StdoutFailAt-1))
+	}
 	res := RunLint(w, c, ro)
 	o.addRun(res.K)
 	if env.KeepTrace {
 		o.Traces = append(o.Traces, res.K.Trace)
+	}
+	if w.StdoutFailAt > 0 {
+		if o.Faults == nil {
+			o.Faults = map[string]int{}
+		}
+		o.Faults["stdout-write-error"]++
 	}
 	fired := 0
 	for _, n := range res.K.FaultsFired {
